@@ -167,6 +167,43 @@ add("C17", "range, order, purity, scale-invariance and retract-independence orac
     "Three recorded findings (F24 order with which_type='all', F25a/b infinite features) are excluded by signature "
     "and printed as KNOWN-FINDING.")
 
+add("C16", "generated save/load histories against an ordered-dict model with full h5py dumps after every step; "
+           "enumeration of every h5py write call of a save as injected failure point",
+    "Histories of 2-8 saves (new curve, same curve again with other user fields, same curve with a different fit, "
+    "several files and enumerations) and loads over synthetic and recorded curves with generated fit settings: loaded "
+    "columns bit-identical, settings/parameters/user fields equal by value, features equal, hdf5_rated correct, "
+    "untouched entries dump-identical, a re-save changes only user/version attributes, a different fit is refused "
+    "and leaves the dump unchanged. Fault rule: every write call (create_dataset, create_group, attribute and dataset "
+    "writes; up to 40 per save) of selected saves is failed in turn on a fresh copy of the container and all "
+    "previously stored ratings must still load.",
+    "A process kill leaving a torn HDF5 file is not simulated (the property speaks of failures at write calls); "
+    "'different fit' must be refused when NaN pattern differs or the difference exceeds 1e-3 of the amplitude.",
+    category="fault_enumeration")
+
+add("C07", "defining relations of each step checked on before/after columns of Hypothesis-generated well-formed curves "
+           "and all well-formed recorded curves (enumerated), each step x each option value",
+    "Synthetic curves (5 models, noise, tilt, drift, lagged segment flag, quantised and noisy heights, 60-1200 samples) "
+    "and the 20 well-formed recorded curves: tip position == height + force/k bit-exactly; offset corrections are "
+    "one constant with zero baseline mean / zero tip at the public contact index (6 methods); slope correction is "
+    "affine in the chosen abscissa inside the region (3 regions x 2 strategies), zero at the junction, leaves the "
+    "rest untouched and removes the baseline trend; segment discovery yields one switch at the farthest point; "
+    "smoothing makes every height-like column strictly monotonic per segment; point count and foreign columns "
+    "unchanged; ret_details does not change data.",
+    "'Well-formed' is fixed by the generator and stated in the evidence (baseline >= 10 % and >= 20 samples, "
+    "segments >= 30 samples, <= 300 runs of equal heights); contact-point indices outside [0, n) are C08's subject "
+    "and skipped here.")
+
+add("C19", "set/get histories against a dict model across new Profile objects; legacy-vs-JSON differential; scripted "
+           "input() driving setup_profile with generated answer scripts; batch fit of every produced profile compared "
+           "row by row with an independent scripted fit",
+    "600 histories, 296 legacy/JSON pairs, 400 setup scripts (each prompt answered from the domain it offers or "
+    "skipped, 1-3 consecutive runs) and 16 batch fits over synthetic and recorded curves per quick run: "
+    "read-after-write equality (type strict), legacy == JSON, get_fit_params == defaults overridden by exactly the "
+    "stored entries, stored == answered (unit converted), every setup-produced profile is accepted by fit_perform, "
+    "statistics.tsv rows equal path / enum / str(E) / round(rating, 1) of an independent fit, one plot page per curve.",
+    "builtins.input is scripted and the profile path redirected from the harness; plot content beyond the page count "
+    "is not inspected; the third-party model sneddon_spher is excluded from batch fits.")
+
 NOT_YET = {}
 
 ALL = [f"C{i:02d}" for i in range(1, 21)]
